@@ -212,7 +212,11 @@ class DefaultArgsParser(ArgsParser):
                 self._arguments[arg.name].append(token)
             else:
                 self._arguments[arg.name] = token
-        elif fmt.has_argument(c - 1) and fmt.get_argument(c - 1).is_multi_valued():
+        elif (
+            c > 0
+            and fmt.has_argument(c - 1)
+            and fmt.get_argument(c - 1).is_multi_valued()
+        ):
             arg = fmt.get_argument(c - 1)
             if arg.name not in self._arguments:
                 self._arguments[arg.name] = []
